@@ -246,6 +246,29 @@ def check(ctx, rep):
             calls = [e for e in p.calls() if e.d["func"] == F]
             rep.ob("R-REFS-FUTURE", "%s drops its target before calling it" % wc.name, len(dels) >= 1 and len(calls) == 1 and dels[0].seq < calls[0].seq and tuple(calls[0].d["args"]) == (("star", ("seq", (), ("param", call.vararg), 0)),), "", where_of(call), trace_of(p))
 
+    # the combinators register their own methods on futures the user handed in (possibly plain stdlib futures, which
+    # keep their callback list for as long as they live): those registrations go through the call-once wrapper, or
+    # a long-lived input keeps the whole operation -- output future, results, the other inputs -- alive
+    nreg = 0
+    for cn in ("OrOperation", "AndOperation", "Zipper"):
+        try:
+            oc = prog.cls(cn)
+        except AnalysisError:
+            continue
+        o, oinit = oc.lookup("__init__")
+        if oinit is None:
+            continue
+        ps, it = ctx.paths(oinit, oc, depth=1, inline=lambda callee, ev, path: callee.owner is not None and callee.owner in oc.mro() and callee.name != "__init__")
+        for p in ps:
+            for e in p.calls():
+                r = q.recv(e)
+                if q.call_name(e) == "add_done_callback" and e.d["args"] and isinstance(r, tuple) and r[0] == "elem":
+                    cb = e.d["args"][0]
+                    wrapped = isinstance(cb, tuple) and cb[0] == "new" and prog.classes.get(cb[1]) in wrappers
+                    nreg += 1
+                    rep.ob("R-REFS-FUTURE", "%s registers its callback on the inputs through the call-once wrapper" % cn, wrapped, "the input future gets %s directly: a plain concurrent.futures.Future never forgets its callbacks, so an input that outlives the operation keeps the operation, its output future and every collected result alive" % fmt(cb), where_of(e.fn, e.node), trace_of(p, e.seq))
+    rep.count("callback registrations of combinators on their inputs", nreg, 2)
+
     # a poll entry is removed by the future's own done-callback, so it must not be possible for the future to
     # finish before the entry exists (shared with C08)
     from .c08 import register_order_rule
